@@ -147,8 +147,8 @@ def setna(ctx, shape, how, dkind='f', inplace=False):
     if how == 'scalar':
         vs = [mk('m0')]
         arg = vs[0]
-    elif how == 'list':
-        vs = [mk('m0'), mk('m1')]
+    elif how in ('list', 'list3', 'list4'):
+        vs = [mk('m%d' % j) for j in range({'list': 2, 'list3': 3, 'list4': 4}[how])]
         arg = list(vs)
     else:
         bits = [bool(ctx.bool('b%d' % j)) for j in range(len(ref.cells))]
@@ -159,7 +159,7 @@ def setna(ctx, shape, how, dkind='f', inplace=False):
     res = a if inplace else r[1]
     exp = []
     for j, c in enumerate(ref.cells):
-        if how in ('scalar', 'list'):
+        if how in ('scalar', 'list', 'list3', 'list4'):
             hit = (not ctx.isnan(c)) and any(bool(c == v) for v in vs)
         else:
             hit = bits[j]
@@ -221,5 +221,9 @@ def templates():
                         continue
                     add('setna-%s-%s-%s-%s' % (dk, 'x'.join(map(str, shape)), how, inplace), 'setna', 'quick' if len(shape) < 3 or how in ('mask',) else 'thorough',
                         cost=(0.5 * 2 ** (len(shape) * 2) / 4) if len(shape) < 3 or how == 'mask' else 300, shape=shape, how=how, dkind=dk, inplace=inplace)
+    for how in ('list3', 'list4'):
+        for dk in 'fi':
+            add('setna-%s-%s' % (how, dk), 'setna', cost=3, shape=[3], how=how, dkind=dk)
+            add('setna-%s-%s-2d' % (how, dk), 'setna', cost=6, shape=[2, 2], how=how, dkind=dk, inplace=True)
     add('fillna-int-value', 'fillna', cost=0.5, shape=[2, 2], dkind='f', vkind='i')
     return ts
